@@ -4,6 +4,9 @@ import (
 	"bytes"
 	"encoding/json"
 	"fmt"
+	"github.com/indexsupply/shovel/wos"
+	"math/big"
+	"os"
 	"strings"
 	"time"
 
@@ -886,6 +889,71 @@ func runC06(e *core.Env) error {
 		op, impl := w.caseOp()
 		e.Add(core.Case{Op: op, Impl: impl, Oracles: oracles, Nontrivial: true, Key: fmt.Sprintf("c06-pair %d %d", rep, e.Seed), Tags: []string{"bounded-next-to-unbounded"}})
 		w.close()
+	}
+	// ---- the range as WRITTEN: start / stop / chain_id go through wos.EnvUint64 (bare number, quoted
+	// number, or "$VARIABLE"); whatever the spelling, the text is read as a decimal number or refused
+	{
+		var toks []string
+		for _, n := range []uint64{0, 1, 7, 8, 9, 10, 17, 100, 17000000, 17000100, 1 << 32, 1<<63 - 1, 1 << 63, 1<<64 - 1} {
+			d := fmt.Sprint(n)
+			toks = append(toks, d, "0"+d, "00"+d, "000000"+d, "0x"+d, "0X"+d, "0o"+d, "0b"+d, "+"+d, "-"+d, " "+d, d+" ", d+"_000", "1_"+d, d+".0", d+"e1")
+		}
+		toks = append(toks, "", "0", "00", "0x", "x", "18446744073709551616", "018446744073709551616", "99999999999999999999999", "0777", "0o777", "010", "08", "09", "1e3", "0b101", "\\u0031")
+		for i := 0; i < e.N(40, 600); i++ {
+			n := 1 + r.Intn(22)
+			b := make([]byte, n)
+			for k := range b {
+				b[k] = core.Pick(r, []byte("0000123456789789xXob_+- .e"))
+				if r.Chance(4, 5) {
+					b[k] = byte('0' + r.Intn(10))
+				}
+			}
+			if r.Bool() {
+				b[0] = '0'
+			}
+			toks = append(toks, string(b))
+		}
+		os.Setenv("C06_RANGE_VALUE", "unset-yet")
+		for ti, tk := range toks {
+			for _, form := range []string{"bare", "quoted", "env"} {
+				token, env := tk, ""
+				switch form {
+				case "quoted":
+					token = `"` + tk + `"`
+				case "env":
+					if tk == "" {
+						continue // (an empty variable terminates the process: not run in-process)
+					}
+					token, env = `"$c06_range_value"`, tk
+					os.Setenv("C06_RANGE_VALUE", tk)
+				}
+				impl := core.Protect(func() string {
+					var v wos.EnvUint64
+					if err := v.UnmarshalJSON([]byte(token)); err != nil {
+						return "err"
+					}
+					return fmt.Sprintf("ok %d", uint64(v))
+				})
+				// independent reading: a non-empty run of decimal digits below 2^64, nothing else
+				spec := "err"
+				if z, ok := new(big.Int).SetString(tk, 10); ok && tk != "" && strings.Trim(tk, "0123456789") == "" && z.IsUint64() {
+					spec = fmt.Sprintf("ok %d", z.Uint64())
+				}
+				e.Add(core.Case{Op: "envu64 " + core.Hex([]byte(token)) + " " + core.Hex([]byte(env)), Impl: impl, Spec: spec, Nontrivial: true,
+					Key: fmt.Sprintf("c06-envu64 %d %s", ti, form), Tags: []string{"range-as-written", "form=" + form, "impl:" + strings.SplitN(impl, " ", 2)[0], fmt.Sprintf("leading-zero=%v", len(tk) > 1 && tk[0] == '0')}})
+				// and the same text inside a whole source reference, decoded the way the configuration file is
+				if form != "bare" && spec != "err" {
+					var sr config.Source
+					doc := fmt.Sprintf(`{"name": "src1", "start": %s, "stop": %s}`, token, token)
+					got := "err"
+					if err := json.Unmarshal([]byte(doc), &sr); err == nil {
+						got = fmt.Sprintf("ok %d %d", sr.Start, sr.Stop)
+					}
+					e.Add(core.Case{Impl: got, Spec: spec + strings.TrimPrefix(spec, "ok"), Key: fmt.Sprintf("c06-srcref %d %s", ti, form), Nontrivial: true, Tags: []string{"range-as-written-in-source-reference"}, Detail: map[string]any{"document": doc, "variable": env}})
+				}
+			}
+		}
+		os.Unsetenv("C06_RANGE_VALUE")
 	}
 	// ---- "with none it begins at the source's CURRENT head": an integration without a start joins a
 	// source whose (shared, caching) client has been serving another task for a while; the chain has
